@@ -280,9 +280,9 @@ def gen_value(rng, iface, ttype, depth=0, allow_derived=True):
         if a["use"] == "required" or rng.random() < 0.5:
             val["_" + a["name"]] = gen_builtin(rng, a["type"], True)
     if not has_content(val):
-        # the alphabet has no content-free objects: give the first member a value (and drop the empty lists / Nones
+        # the alphabet has no content-free objects: give the first member a value (and drop the empty lists
         # drawn so far: an empty list for another branch of a choice would count as a second value in a call)
-        for k_ in [k_ for k_, v_ in val.items() if k_ != "__type__" and (v_ is None or v_ == [])]:
+        for k_ in [k_ for k_, v_ in val.items() if k_ != "__type__" and v_ == []]:
             del val[k_]
         ms = members_of(iface, real)
         if ms:
